@@ -22,6 +22,7 @@ import (
 )
 
 type boardStats struct {
+	FollowerReads                                                             int
 	Ops, Histories, Sends, Reads, MaxWriters, DistinctSizes, ProcessHistories int
 	OutcomeHist                                                               map[string]int
 	Monitors                                                                  []string
@@ -299,6 +300,107 @@ func runBoardDiff(outDir string, seed int64, tier string) {
 				st.Monitors = append(st.Monitors, fmt.Sprintf("C16 read_suffix: history %d GetMessages(%d) ignoring ids=%v offs=%v returned %s, expected %s (line sizes: %v)", h, r, len(ignIDs), ignOffs, truncate(ob, 200), truncate(wantOb, 200), sizesOf(entries)))
 			}
 		}
+		// a follower: ONE reader handle kept open while the log grows (what a node's poller does), with an ignore list that
+		// comes to cover entries it has already read; every read must still be the suffix from its offset, minus the ignored
+		func() {
+			path2 := filepath.Join(dir, "follow.txt")
+			lock2 := filepath.Join(dir, "follow.lock")
+			w, err := file_storage.NewFileStorage(path2, lock2)
+			if err != nil {
+				return
+			}
+			defer w.Close()
+			rd, err := file_storage.NewFileStorage(path2, lock2)
+			if err != nil {
+				return
+			}
+			defer rd.Close()
+			emit("reset", "reset")
+			var ignIDs, ignOffs []string
+			next, known, seq := 0, 0, 0
+			for round := 0; round < 5; round++ {
+				var batch []storage.Message
+				for j := 0; j < 1+rng.Intn(3); j++ {
+					batch = append(batch, storage.Message{DkgRoundID: "follow", Event: fmt.Sprintf("f%d-%d", h, seq), Data: bytes.Repeat([]byte{'x'}, 10+rng.Intn(300))})
+					seq++
+				}
+				if err := w.Send(batch...); err != nil {
+					st.Monitors = append(st.Monitors, fmt.Sprintf("C16 send_failed: follower history %d: %v", h, err))
+					return
+				}
+				es, err := readBoard(path2)
+				if err != nil {
+					st.Monitors = append(st.Monitors, fmt.Sprintf("C16 unreadable_file: follower history %d: %v", h, err))
+					return
+				}
+				for _, e := range es[known:] {
+					emit(fmt.Sprintf("send %s %d", hs(e.ID), e.Size), fmt.Sprintf("off %d", e.Offset))
+					st.Sends++
+				}
+				known = len(es)
+				// before the read: ignore something it has NOT read yet (an entry just appended, by id or by offset) —
+				// what a node started with an ignore list does
+				if len(es) > next && round%2 == 0 {
+					e := es[next+rng.Intn(len(es)-next)]
+					if rng.Intn(2) == 0 {
+						ignIDs = append(ignIDs, e.ID)
+						rd.IgnoreMessages([]string{e.ID}, false)
+					} else {
+						ignOffs = append(ignOffs, fmt.Sprint(e.Offset))
+						rd.IgnoreMessages([]string{fmt.Sprint(e.Offset)}, true)
+					}
+				}
+				msgs, err := rd.GetMessages(uint64(next))
+				ob := "err"
+				if err == nil {
+					parts := make([]string, len(msgs))
+					for i, m := range msgs {
+						parts[i] = fmt.Sprintf("%d:%s", m.Offset, hs(m.ID))
+					}
+					ob = "ok [" + strings.Join(parts, ",") + "]"
+				}
+				idTok, offTok := "-", "-"
+				if len(ignIDs) > 0 {
+					hx := make([]string, len(ignIDs))
+					for i, x := range ignIDs {
+						hx[i] = hs(x)
+					}
+					idTok = strings.Join(hx, ",")
+				}
+				if len(ignOffs) > 0 {
+					offTok = strings.Join(ignOffs, ",")
+				}
+				emit(fmt.Sprintf("read %d %s %s", next, idTok, offTok), ob)
+				st.Reads++
+				st.FollowerReads++
+				var want []string
+				for pos, e := range es {
+					if pos < next || contains(ignIDs, e.ID) || contains(ignOffs, fmt.Sprint(e.Offset)) {
+						continue
+					}
+					want = append(want, fmt.Sprintf("%d:%s", pos, hs(e.ID)))
+				}
+				if wantOb := "ok [" + strings.Join(want, ",") + "]"; wantOb != ob {
+					st.Monitors = append(st.Monitors, fmt.Sprintf("C16 read_suffix: follower history %d, round %d: the same handle, GetMessages(%d) ignoring ids=%d offs=%v returned %s, expected %s", h, round, next, len(ignIDs), ignOffs, truncate(ob, 200), truncate(wantOb, 200)))
+				}
+				if len(msgs) > 0 {
+					next = int(msgs[len(msgs)-1].Offset) + 1
+				}
+				// grow the ignore list: something already read, by id or by offset
+				if len(es) > 0 {
+					switch round % 3 {
+					case 0:
+						id := es[rng.Intn(len(es))].ID
+						ignIDs = append(ignIDs, id)
+						rd.IgnoreMessages([]string{id}, false)
+					case 1:
+						off := fmt.Sprint(rng.Intn(len(es)))
+						ignOffs = append(ignOffs, off)
+						rd.IgnoreMessages([]string{off}, true)
+					}
+				}
+			}
+		}()
 		os.RemoveAll(dir)
 	}
 	st.DistinctSizes = len(distinct)
